@@ -19,11 +19,11 @@ import (
 )
 
 type Step struct {
-	Frame  []any    `json:"f,omitempty"`      // type, stream, es, eh, kind
-	Finish int      `json:"finish,omitempty"` // HandlerFinish(stream)
-	Expect [][]any  `json:"expect"`
+	Frame   []any   `json:"f,omitempty"`      // type, stream, es, eh, kind
+	Finish  int     `json:"finish,omitempty"` // HandlerFinish(stream)
+	Expect  [][]any `json:"expect"`
 	Trailer bool    `json:"trailer"` // the stream is open in the specification state: a header block on it is a trailer block
-	Dead   bool     `json:"dead"` // the specification state before this step already had a connection error
+	Dead    bool    `json:"dead"`    // the specification state before this step already had a connection error
 }
 type Path struct {
 	ID    int    `json:"id"`
@@ -57,6 +57,32 @@ func (g *gated) gate(tag string) chan struct{} {
 	}
 	return c
 }
+
+// front: the same gate installed in front of the reverse proxy, for paths whose requests declare a content-length the body never
+// reaches - the reverse proxy would fail such a request on its own the moment END_STREAM arrives short, at a time the client cannot
+// control; this handler never looks at the body, so when it finishes is decided by the gate alone
+func (g *gated) front(inner http.Handler) http.Handler {
+	return http.HandlerFunc(func(w http.ResponseWriter, r *http.Request) {
+		if r.Header.Get("X-Vf-Front") == "" {
+			inner.ServeHTTP(w, r)
+			return
+		}
+		tag := r.Header.Get("X-Vf-Tag")
+		g.mu.Lock()
+		g.arrived[tag] = true
+		g.mu.Unlock()
+		select {
+		case <-g.gate(tag):
+		case <-r.Context().Done():
+			return
+		case <-time.After(20 * time.Second):
+		}
+		w.Header().Set("Content-Length", "2")
+		w.WriteHeader(200)
+		io.WriteString(w, "ok")
+	})
+}
+
 func (g *gated) ServeHTTP(w http.ResponseWriter, r *http.Request) {
 	tag := r.Header.Get("X-Vf-Tag")
 	g.mu.Lock()
@@ -95,7 +121,13 @@ func (g *gated) release(tag string) {
 
 var codeName = map[uint32]string{0: "NO", 1: "PE", 3: "FC", 5: "SC", 6: "FS", 7: "RS", 8: "CANCEL", 2: "INTERNAL", 9: "CE", 11: "EYC"}
 
+var frontPath = map[int]bool{} // path id -> its requests go to the front gate (set before the paths run)
+
 func frameBytes(f []any, tag func(sid uint32) string, trailer bool) []byte {
+	return frameBytesF(f, tag, trailer, false)
+}
+
+func frameBytesF(f []any, tag func(sid uint32) string, trailer bool, front bool) []byte {
 	typ := f[0].(string)
 	sid := uint32(f[1].(float64))
 	es, eh := f[2].(bool), f[3].(bool)
@@ -107,6 +139,12 @@ func frameBytes(f []any, tag func(sid uint32) string, trailer bool) []byte {
 		}
 		if kind == "malformed" {
 			fs = append(fs, h2raw.HF{":late-pseudo", "1"}) // pseudo-header after a regular field
+		}
+		if front && !trailer {
+			fs = append(fs, h2raw.HF{"x-vf-front", "1"})
+		}
+		if kind == "clbig" && !trailer {
+			fs = append(fs, h2raw.HF{"content-length", "100"}) // more than this alphabet ever sends: END_STREAM arrives short
 		}
 		return fs
 	}
@@ -139,7 +177,7 @@ func frameBytes(f []any, tag func(sid uint32) string, trailer bool) []byte {
 		}
 		return h2raw.Frame(h2raw.THeaders, flags, sid, append(p, blk[:10]...)) // the rest travels in the final CONTINUATION
 	case "CONT":
-		blk := h2raw.Block([]h2raw.HF{{":method", "POST"}, {":scheme", "https"}, {":authority", "vf.test"}, {":path", "/r"}, {"x-vf-tag", tag(sid)}})
+		blk := h2raw.Block(reqFields())
 		if trailer {
 			blk = h2raw.Block([]h2raw.HF{{"x-trailer", "1"}, {"x-trailer-two", "22"}})
 		}
@@ -277,6 +315,12 @@ func runPath(st *stack.Stack, g *gated, p Path) PathObs {
 			}
 		}
 	}
+	front := false // see gated.front
+	for _, s0 := range p.Steps {
+		if s0.Frame != nil && len(s0.Frame) > 4 && s0.Frame[4] == "clbig" {
+			front = true
+		}
+	}
 	for _, s := range p.Steps {
 		var so StepObs
 		if s.Dead {
@@ -292,7 +336,7 @@ func runPath(st *stack.Stack, g *gated, p Path) PathObs {
 				isTrailer[sid] = s.Trailer
 				headersSeen[sid] = true
 			}
-			b := frameBytes(s.Frame, tag, isTrailer[sid])
+			b := frameBytesF(s.Frame, tag, isTrailer[sid], front)
 			if typ == "HEADERS" || typ == "CONT" {
 				allTags = append(allTags, tag(sid))
 			}
@@ -419,7 +463,10 @@ func main() {
 		panic(err)
 	}
 	g := &gated{arrived: map[string]bool{}, gates: map[string]chan struct{}{}}
-	st, err := stack.Start(stack.Options{BackendHandler: g, MutateServer: func(s *proxyserver.Server) { s.HTTP2Server.MaxConcurrentStreams = 2 }})
+	st, err := stack.Start(stack.Options{BackendHandler: g, MutateServer: func(s *proxyserver.Server) {
+		s.HTTP2Server.MaxConcurrentStreams = 2
+		s.HTTPServer.Handler = g.front(s.HTTPServer.Handler)
+	}})
 	if err != nil {
 		panic(err)
 	}
